@@ -138,6 +138,11 @@ def run(R, tier):
                 ka = (0, blade) if blade else (0,)
                 xs = [float(rng.randint(5, 9))] + ([float(rng.randint(1, 3))] if blade else [])
                 tol = 1e-9
+                neg = [k for k in alg.canon2bin.values() if k and alg.signs[k, k] == -1] if alg.d <= 6 else []
+                if neg and rng.random() < 0.4:       # no scalar blade stored at all: a blade squaring to a negative number, magnitude != 1
+                    blade = rng.choice(neg)
+                    ka = (blade,)
+                    xs = [float(rng.randint(2, 7))]
             elif op == 'exp':
                 blade = rng.choice([k for k in alg.canon2bin.values() if k] or [0])
                 ka = (blade,)
